@@ -422,3 +422,29 @@ __CPROVER_ensures(g_atexits == 1 && g_atexit_is_stop && g_t_spawn < g_t_atexit) 
     harness='  BE_start_once();', dropped=['std::call_once and the once flag', 'logger name / timeout stored in the handler context', 'the _WIN32 arm (not compiled here)'],
     trusted=['POSIX: a new thread inherits the creating thread\'s signal mask; sigprocmask / sigfillset', 'init_signal_handler installs on_signal (unit SIG.on_signal) for the listed signals'], min_obligations=6)
 UNITS += [be_start_plain, be_start_signal]
+
+# ------------------------------------------------------------------------------------------ detail::on_alarm (the handler's timeout)
+AL_PRELUDE = r'''
+int g_ctx_signal;                                  /* SignalHandlerContext::signal_number: the handled signal on_signal recorded (0: none yet) */
+size_t g_clock, g_t_sigdfl, g_t_raise, g_sigdfls, g_raises; int g_dfl_signal, g_raised_signal;
+static inline int CTX_signal_load(void) { return g_ctx_signal; }
+static inline void CTX_signal_assign(int s) { g_ctx_signal = s; }
+void SIGNAL_DFL(int s) __CPROVER_assigns(g_clock, g_t_sigdfl, g_sigdfls, g_dfl_signal) __CPROVER_ensures(g_clock == OLD(g_clock) + 1 && g_t_sigdfl == g_clock && g_sigdfls == OLD(g_sigdfls) + 1 && g_dfl_signal == s);
+void RAISE(int s) __CPROVER_assigns(g_clock, g_t_raise, g_raises, g_raised_signal) __CPROVER_ensures(g_clock == OLD(g_clock) + 1 && g_t_raise == g_clock && g_raises == OLD(g_raises) + 1 && g_raised_signal == s);
+'''
+on_alarm = dict(
+    name='SIG.on_alarm', primary='C07', props={'C07'}, kind='S',
+    desc='detail::on_alarm (the handler ran out of time): the process still dies from the ORIGINAL handled signal with its default action - from SIGALRM itself only when no handled signal was recorded',
+    structs=[], prelude=AL_PRELUDE, enforce='on_alarm', replace=['SIGNAL_DFL', 'RAISE'],
+    funcs=[dict(src=dict(header=SH, cls=None, name='on_alarm'), src_params=['signal_number'], cfun='on_alarm', sig='void on_alarm(int32_t signal_number)', member_fields=[],
+                pre_rules=[(r'SignalHandlerContext::instance\(\)\.signal_number\.load\(\)', 'CTX_signal_load()'), (r'SignalHandlerContext::instance\(\)\.signal_number\s*=\s*signal_number\s*;', 'CTX_signal_assign(signal_number);'),
+                           (r'std::signal\(SignalHandlerContext::instance\(\)\.signal_number,\s*SIG_DFL\)\s*;', 'SIGNAL_DFL(CTX_signal_load());'), (r'std::raise\(SignalHandlerContext::instance\(\)\.signal_number\)\s*;', 'RAISE(CTX_signal_load());')],
+                contract=r'''
+__CPROVER_requires(g_clock == 0 && g_sigdfls == 0 && g_raises == 0 && signal_number != 0)
+__CPROVER_assigns(g_ctx_signal, g_clock, g_t_sigdfl, g_t_raise, g_sigdfls, g_raises, g_dfl_signal, g_raised_signal)
+__CPROVER_ensures(g_raises == 1 && g_sigdfls == 1 && g_t_sigdfl < g_t_raise && g_dfl_signal == g_raised_signal) /*@ C07 "the default action is restored for the very signal that is then raised (the process dies, it does not re-enter the handler)" */
+__CPROVER_ensures(OLD(g_ctx_signal) != 0 ==> g_raised_signal == OLD(g_ctx_signal)) /*@ C07 "after a timeout the process still dies from the original handled signal" */
+__CPROVER_ensures(OLD(g_ctx_signal) == 0 ==> g_raised_signal == signal_number)
+''')],
+    harness='  int32_t s; on_alarm(s);', dropped=['the atomic of the handler context as a plain int (the handler runs on one thread)'], trusted=['std::signal / std::raise'], min_obligations=4)
+UNITS += [on_alarm]
